@@ -13,6 +13,9 @@ from rtypes import *
 
 RNE = z3.RNE()
 F64 = z3.Float64()
+# associated constants of f64 (exact values)
+STD_F64_CONSTS = {"EPSILON": 2.0 ** -52, "MAX": 1.7976931348623157e308, "MIN": -1.7976931348623157e308, "MIN_POSITIVE": 2.2250738585072014e-308,
+                  "INFINITY": float("inf"), "NEG_INFINITY": float("-inf")}
 
 
 class Unencodable(Exception):
@@ -468,11 +471,28 @@ class Executor:
                 # a named constant of the crate with a literal value
                 cands = [c for c in self.prog.named_consts.get(v.text.split("::")[-1], [])
                          if c.name == v.text or v.text.endswith("::" + c.name) or c.name.endswith("::" + v.text)]
-                if len(cands) == 1:
+                if len(cands) == 1 and cands[0].const_literal is not None:
                     try:
                         return self.const(cands[0].const_literal)
                     except Unencodable:
                         pass
+                elif len(cands) == 1:
+                    # a constant computed by a straight-line body: run it (cached per state like promoteds)
+                    key = ("named_const", cands[0].name, cands[0].text_hash)
+                    cache = st.ghost.setdefault("promoted_cache", {})
+                    if key in cache:
+                        return cache[key]
+                    try:
+                        res = self.exec_fn(st, cands[0], [], 0)
+                    except Unencodable:
+                        res = []
+                    if len(res) == 1 and res[0][1].kind == "ret" and res[0][0] is st:
+                        cache[key] = res[0][1].value
+                        return res[0][1].value
+            if isinstance(v, FnItem):
+                sm = re.fullmatch(r"(?:core|std)::f64::(?:<impl f64>::|consts::)?(\w+)", v.text)
+                if sm and sm.group(1) in STD_F64_CONSTS:
+                    return Prim("f64", z3.FPVal(STD_F64_CONSTS[sm.group(1)], F64))
             return v
         cell, path = self.eval_place(st, frame, op.place)
         return self.read(st, cell, path)
